@@ -211,7 +211,7 @@ def locate(src, sel):
     toks = tokenize(src)
     ct = code_tokens(toks)
     sel = sel.strip()
-    m = re.match(r"impl\s+(.*?)\s*::\s*fn\s+(\w+)(?:\s*#(\d+))?$", sel)
+    m = re.match(r"impl\s*(.*?)\s*::\s*fn\s+(\w+)(?:\s*#(\d+))?$", sel)
 
     def search(lo, hi, want_kw, want_name, nth=0, into_mods=True):
         hits = []
@@ -453,6 +453,30 @@ def compose(template_text, repo_root, read_file):
     lines = template_text.split("\n")
     i = 0
     from common import sha
+    # conditional spec text keyed on the extracted source:  //@IF file=.. sel=.. contains=..  /  //@ELSE  /  //@ENDIF
+    pre, skipping, stack_if = [], False, []
+    for l in lines:
+        st = l.strip()
+        if st.startswith("//@IF "):
+            a = dict(re.findall(r"(\w+)=((?:(?! \w+=).)+)", st[len("//@IF"):].strip()))
+            a = {k: v.strip() for k, v in a.items()}
+            src = read_file(a["file"])
+            try:
+                x, y = locate(src, a["sel"])
+                cond = a["contains"] in src[x:y]
+            except Undecided:
+                cond = False
+            stack_if.append(cond)
+            continue
+        if st.startswith("//@ELSE"):
+            stack_if[-1] = not stack_if[-1]
+            continue
+        if st.startswith("//@ENDIF"):
+            stack_if.pop()
+            continue
+        if all(stack_if):
+            pre.append(l)
+    lines = pre
     while i < len(lines):
         l = lines[i]
         if l.strip().startswith("//@ITEM"):
